@@ -1,5 +1,5 @@
 """Runs real `ska` commands in a scratch directory and records one Trace_Ska event per command."""
-import os, json, shutil, math, fractions
+import os, json, shutil, math, fractions, zlib
 import vlib
 from vlib import b
 
@@ -65,6 +65,14 @@ class Sandbox:
         with open(fl, "w") as f:
             for i, (s, nm) in enumerate(zip(samples, names)):
                 fa = os.path.join(self.dir, "in%d_%d.fa%s" % (self.nfile, i, ".gz" if gz else ""))
+                if len(s) >= 2 and zlib.crc32(nm.encode()) % 3 == 0:
+                    # a sample kept as two FASTA files (one list line with two paths): its records are those of both files
+                    fb = os.path.join(self.dir, "in%d_%d_b.fa%s" % (self.nfile, i, ".gz" if gz else ""))
+                    cut = (len(s) + 1) // 2
+                    vlib.write_fasta(fa, s[:cut], gz=gz)
+                    vlib.write_fasta(fb, s[cut:], gz=gz)
+                    f.write("%s\t%s\t%s\n" % (nm, fa, fb))
+                    continue
                 vlib.write_fasta(fa, s, gz=gz)
                 f.write("%s\t%s\n" % (nm, fa))
         args = ["build", "-o", self.path(out)[:-4], "-k", str(k), "-f", fl, "--threads", str(threads)]
